@@ -281,7 +281,7 @@ func respond(r *env.Recorded) (*http.Response, error) {
 			// the answer depends on every received header: say so (RFC 7234 4.1)
 			extra["Vary"] = strings.Join(v.Names, ", ")
 			if strings.HasPrefix(u.Path, "/hc/maxage") {
-				extra["Cache-Control"] = "private, max-age=30"
+				extra["Cache-Control"] = "public, max-age=30"
 			}
 		}
 
